@@ -193,6 +193,14 @@ IdealTable(S) ==
   LET Keys == {s.key : s \in S} IN
   {<<k, IdealRow({s \in S : s.key = k})>> : k \in {k2 \in Keys : IdealLive({s \in S : s.key = k2})}}
 
+(* What s3db_vacuum(cutoff) forgets: every statement of a key whose status  *)
+(* is "deleted" with a delete time before the cutoff (the row's entry,     *)
+(* marker included, is removed from the tree).                             *)
+DeadBefore(S, k, cutoff) ==
+  LET ID == {s \in S : s.key = k /\ s.kind \in {"ins", "del"}} IN
+  ID # {} /\ Latest(ID).kind = "del" /\ Latest(ID).wt < cutoff
+Purge(S, cutoff) == {s \in S : ~DeadBefore(S, s.key, cutoff)}
+
 (* Distinct statements of one key carry distinct write times (the          *)
 (* precondition of C01/C02; byte-identical retries are the same element).  *)
 DistinctTimes(S) == \A s1, s2 \in S : (s1.key = s2.key /\ s1.wt = s2.wt) => s1 = s2
